@@ -286,7 +286,7 @@ pub fn run(ctx: &Ctx) -> i32 {
         // take an hour on 16 cores, so it takes every subset with at most 3 or at least 10 features and every fifth of the rest
         // (about 1350 subsets); VERIF_C18_ALL=1 makes it exhaustive
         let all = std::env::var_os("VERIF_C18_ALL").is_some();
-        beh_sets = (1..=full).filter(|m: &u16| all || m.count_ones() <= 3 || m.count_ones() >= 10 || (*m as u32 * 2654435761u32) % 5 == 0).collect();
+        beh_sets = (1..=full).filter(|m: &u16| all || m.count_ones() <= 3 || m.count_ones() >= 10 || (*m as u32).wrapping_mul(2654435761u32) % 5 == 0).collect();
         rep.exhaustive = all;
         rep.count("build_half_is_exhaustive(4096+15 subsets)", 1);
     } else {
